@@ -528,3 +528,288 @@ Proof.
   apply w_tedge_from_1 in Hte. subst w.
   inversion Hrest as [v Hp|v w u Hp _ _]; subst; apply w_not_in_class; exact Hp.
 Qed.
+
+(* ------------------------------------------------------------------ the neighbours table *)
+Definition fwd (i : nat) (e : edge) : nbrow :=
+  {| nb_rid := (i, false); nb_node := e_l e; nb_nb := e_r e; nb_p := e_p e |}.
+Definition bwd (i : nat) (e : edge) : nbrow :=
+  {| nb_rid := (i, true); nb_node := e_r e; nb_nb := e_l e; nb_p := e_p e |}.
+
+Lemma nbs_in : forall thr E nb,
+  In nb (df_neighbours thr E) <->
+  exists i e, In (i, e) (indexed E) /\ above thr (e_p e) = true /\ (nb = fwd i e \/ nb = bwd i e).
+Proof.
+  intros. unfold df_neighbours. rewrite in_app_iff, !in_map_iff. split.
+  - intros [[[i e] [Heq H]]|[[i e] [Heq H]]]; apply filter_In in H; destruct H as [H Ha];
+      exists i, e; (split; [assumption|]); (split; [assumption|]); [left|right]; symmetry; exact Heq.
+  - intros (i & e & Hin & Ha & [-> | ->]); [left|right]; exists (i, e); (split; [reflexivity|]);
+      apply filter_In; split; assumption.
+Qed.
+
+Lemma indexed_bounds : forall (l : list edge) k i e,
+  In (i, e) (combine (seq k (length l)) l) -> (k <= i)%nat /\ In e l.
+Proof.
+  induction l as [|a l IH]; intros k i e H; [contradiction|]. cbn [length seq combine] in H.
+  destruct H as [H|H].
+  - inversion H; subst. split; [lia|left; reflexivity].
+  - apply IH in H. destruct H. split; [lia|right; assumption].
+Qed.
+
+Lemma in_indexed : forall (l : list edge) k e, In e l -> exists i, In (i, e) (combine (seq k (length l)) l).
+Proof.
+  induction l as [|a l IH]; intros k e H; [contradiction|]. cbn [length seq combine].
+  destruct H as [->|H]; [exists k; left; reflexivity|].
+  destruct (IH (S k) e H) as [i Hi]. exists i. right. assumption.
+Qed.
+
+Lemma tie_free_index : forall (l : list edge) k i j e e',
+  tie_free l ->
+  In (i, e) (combine (seq k (length l)) l) -> In (j, e') (combine (seq k (length l)) l) ->
+  (e_p e == e_p e')%Q -> i = j /\ e = e'.
+Proof.
+  induction l as [|a l IH]; intros k i j e e' Htf Hi Hj Hp; [contradiction|].
+  inversion Htf as [|? ? Hfa Htf']; subst. cbn [length seq combine] in Hi, Hj.
+  destruct Hi as [Hi|Hi], Hj as [Hj|Hj].
+  - inversion Hi; inversion Hj; subst. auto.
+  - exfalso. inversion Hi; subst. apply indexed_bounds in Hj. destruct Hj as [_ Hj].
+    rewrite Forall_forall in Hfa. exact (Hfa e' Hj Hp).
+  - exfalso. inversion Hj; subst. apply indexed_bounds in Hi. destruct Hi as [_ Hi].
+    rewrite Forall_forall in Hfa. apply (Hfa e Hi). symmetry. exact Hp.
+  - apply (IH (S k)); assumption.
+Qed.
+
+(* ------------------------------------------------------------------ tie-free: maximality *)
+Section TieFree.
+  Variable dfs : list Z.
+  Variable thr : option Q.
+  Variable E : list edge.
+  Variables chl chr : chooser.
+  Variable it : nat.
+  Variable prev : list reprow.
+  Hypothesis Hnd : NoDup (map rr_node prev).
+  Hypothesis Htf : tie_free E.
+  Hypothesis Hl : rank1_ok chl.
+  Hypothesis Hr : rank1_ok chr.
+
+  Let nbs := df_neighbours thr E.
+  Let rows := candidates dfs nbs prev.
+  Let acc' := df_neighbours_k dfs nbs chl chr it prev.
+
+  (* where a candidate row comes from *)
+  Lemma cand_prov : forall a, In a rows ->
+    exists i e rl rr, In (i, e) (indexed E) /\ above thr (e_p e) = true /\
+      In rl prev /\ In rr prev /\ c_lrep a = rr_rep rl /\ c_rrep a = rr_rep rr /\
+      rr_rep rl <> rr_rep rr /\ no_shared dfs prev (rr_rep rl) (rr_rep rr) /\
+      c_p a = e_p e /\ c_node a = rr_node rl /\ c_nb a = rr_node rr /\
+      ((c_rid a = (i, false) /\ c_node a = e_l e /\ c_nb a = e_r e) \/
+       (c_rid a = (i, true) /\ c_node a = e_r e /\ c_nb a = e_l e)).
+  Proof.
+    intros a Ha. apply candidates_in in Ha.
+    destruct Ha as (nb & rl & rr & Hnb & Hrl & Hrr & H1 & H2 & Hne & Hns & ->).
+    apply nbs_in in Hnb. destruct Hnb as (i & e & Hie & Hab & Hd).
+    exists i, e, rl, rr. cbn [c_rid c_node c_nb c_p c_lrep c_rrep].
+    repeat (split; [first [assumption|reflexivity]|]).
+    destruct Hd as [->| ->]; cbn [fwd bwd nb_rid nb_node nb_nb nb_p] in *.
+    - split; [reflexivity|]. split; [assumption|]. split; [assumption|]. left. auto.
+    - split; [reflexivity|]. split; [assumption|]. split; [assumption|]. right. auto.
+  Qed.
+
+  Lemma same_row_intro : forall a b,
+    c_rid a = c_rid b -> c_node a = c_node b -> c_nb a = c_nb b -> same_row a b = true.
+  Proof.
+    intros a b H1 H2 H3. unfold same_row, rid_eqb. rewrite H1, H2, H3, Nat.eqb_refl, eqb_reflx, !Z.eqb_refl.
+    reflexivity.
+  Qed.
+
+  Lemma tie_same_row : forall a b, In a rows -> In b rows ->
+    (c_lrep a = c_lrep b \/ c_rrep a = c_rrep b) -> (c_p a == c_p b)%Q -> same_row a b = true.
+  Proof.
+    intros a b Ha Hb Hpart Hp.
+    destruct (cand_prov a Ha) as (i & e & rl & rr & Hie & _ & Hrl & Hrr & Hla & Hra & Hne & _ & Hpa & Hna & Hba & Hda).
+    destruct (cand_prov b Hb) as (j & e' & rl' & rr' & Hje & _ & Hrl' & Hrr' & Hlb & Hrb & Hne' & _ & Hpb & Hnb & Hbb & Hdb).
+    rewrite Hpa, Hpb in Hp. destruct (tie_free_index E 0 i j e e' Htf Hie Hje Hp) as [<- <-].
+    destruct Hda as [(Hra1 & Hn1 & Hb1)|(Hra1 & Hn1 & Hb1)], Hdb as [(Hrb1 & Hn2 & Hb2)|(Hrb1 & Hn2 & Hb2)].
+    - apply same_row_intro; congruence.
+    - exfalso.
+      assert (rr = rl') by (apply nodup_key_unique with prev; auto; congruence).
+      assert (rl = rr') by (apply nodup_key_unique with prev; auto; congruence).
+      subst. destruct Hpart; congruence.
+    - exfalso.
+      assert (rr = rl') by (apply nodup_key_unique with prev; auto; congruence).
+      assert (rl = rr') by (apply nodup_key_unique with prev; auto; congruence).
+      subst. destruct Hpart; congruence.
+    - apply same_row_intro; congruence.
+  Qed.
+
+  Lemma global_max_accepted : forall a, In a rows ->
+    (forall r, In r rows -> (c_p r <= c_p a)%Q) -> In a acc'.
+  Proof.
+    intros a Ha Hmax. unfold acc', df_neighbours_k. apply filter_In. split; [exact Ha|].
+    apply andb_true_iff. split.
+    - unfold rank_l_is_1. fold nbs. fold rows.
+      assert (Hne : part_l rows (c_lrep a) <> []).
+      { intro H. assert (Hin : In a (part_l rows (c_lrep a))) by (apply filter_In; split; [assumption|apply Z.eqb_refl]).
+        rewrite H in Hin. exact Hin. }
+      destruct (Hl it (c_lrep a) _ Hne) as [Hin Hge]. set (b := chl it (c_lrep a) (part_l rows (c_lrep a))) in *.
+      apply filter_In in Hin. destruct Hin as [Hb Hbl]. apply Z.eqb_eq in Hbl.
+      apply tie_same_row; auto. apply Qle_antisym; [|apply Hmax; assumption].
+      apply Hge. apply filter_In. split; [assumption|apply Z.eqb_refl].
+    - unfold rank_r_is_1. fold nbs. fold rows.
+      assert (Hne : part_r rows (c_rrep a) <> []).
+      { intro H. assert (Hin : In a (part_r rows (c_rrep a))) by (apply filter_In; split; [assumption|apply Z.eqb_refl]).
+        rewrite H in Hin. exact Hin. }
+      destruct (Hr it (c_rrep a) _ Hne) as [Hin Hge]. set (b := chr it (c_rrep a) (part_r rows (c_rrep a))) in *.
+      apply filter_In in Hin. destruct Hin as [Hb Hbl]. apply Z.eqb_eq in Hbl.
+      apply tie_same_row; auto. apply Qle_antisym; [|apply Hmax; assumption].
+      apply Hge. apply filter_In. split; [assumption|apply Z.eqb_refl].
+  Qed.
+
+  Lemma no_shared_sym : forall c1 c2, no_shared dfs prev c1 c2 -> no_shared dfs prev c2 c1.
+  Proof. intros c1 c2 H d Hd [H1 H2]. apply (H d Hd). tauto. Qed.
+
+  Lemma mirror_in : forall a, In a rows ->
+    exists a', In a' rows /\ c_node a' = c_nb a /\ c_nb a' = c_node a /\
+               c_lrep a' = c_rrep a /\ c_rrep a' = c_lrep a /\ c_p a' = c_p a.
+  Proof.
+    intros a Ha. apply candidates_in in Ha.
+    destruct Ha as (nb & rl & rr & Hnb & Hrl & Hrr & H1 & H2 & Hne & Hns & ->).
+    assert (Hnb' : exists nb', In nb' nbs /\ nb_node nb' = nb_nb nb /\ nb_nb nb' = nb_node nb /\ nb_p nb' = nb_p nb).
+    { apply nbs_in in Hnb. destruct Hnb as (i & e & Hie & Hab & [-> | ->]).
+      - exists (bwd i e). split; [apply nbs_in; exists i, e; auto|]. cbn. auto.
+      - exists (fwd i e). split; [apply nbs_in; exists i, e; auto|]. cbn. auto. }
+    destruct Hnb' as [nb' Hnb'].
+    destruct Hnb' as (Hin' & Hn' & Hb' & Hp').
+    exists {| c_rid := nb_rid nb'; c_node := nb_node nb'; c_nb := nb_nb nb'; c_p := nb_p nb';
+              c_lrep := rr_rep rr; c_rrep := rr_rep rl |}.
+    cbn [c_rid c_node c_nb c_p c_lrep c_rrep]. split; [|auto].
+    apply candidates_in. exists nb', rr, rl. repeat (split; [first [assumption|congruence]|]).
+    split; [apply no_shared_sym; assumption|reflexivity].
+  Qed.
+
+  Lemma exists_global_max : rows <> [] -> exists a, In a rows /\ forall r, In r rows -> (c_p r <= c_p a)%Q.
+  Proof.
+    intros Hne. destruct (first_max_ok O 0 rows Hne) as [Hin Hmax]. exists (first_max O 0 rows). split; assumption.
+  Qed.
+
+  (* a step that changes nothing had no candidate row *)
+  Lemma no_change_no_candidates :
+    (forall r, In r prev -> minl (vals dfs nbs chl chr it prev (rr_node r)) = rr_rep r) -> rows = [].
+  Proof.
+    intros Hnc. destruct rows as [|r0 t] eqn:Erows; [reflexivity|exfalso].
+    assert (Hne : rows <> []) by (rewrite Erows; discriminate).
+    destruct (exists_global_max Hne) as [a [Ha Hmax]].
+    destruct (mirror_in a Ha) as (a' & Ha' & Hn' & Hb' & Hl' & Hr' & Hp').
+    assert (Hmax' : forall r, In r rows -> (c_p r <= c_p a')%Q) by (intros; rewrite Hp'; auto).
+    pose proof (global_max_accepted a Ha Hmax) as Hacc.
+    pose proof (global_max_accepted a' Ha' Hmax') as Hacc'.
+    apply candidates_in in Ha. destruct Ha as (nb & rl & rr & _ & Hrl & Hrr & H1 & H2 & Hne' & _ & Heq).
+    assert (Hv : c_node a = rr_node rl) by (rewrite Heq; cbn; assumption).
+    assert (Hw : c_nb a = rr_node rr) by (rewrite Heq; cbn; assumption).
+    assert (Hle1 : rr_rep rl <= rr_rep rr).
+    { rewrite <- (Hnc rl Hrl). apply minl_le. apply (proj2 (vals_in dfs nbs chl chr it prev _ _)). left. exists a, rr. auto. }
+    assert (Hle2 : rr_rep rr <= rr_rep rl).
+    { rewrite <- (Hnc rr Hrr). apply minl_le. apply (proj2 (vals_in dfs nbs chl chr it prev _ _)). left. exists a', rl.
+      repeat split; auto; congruence. }
+    lia.
+  Qed.
+End TieFree.
+
+(* at exit the table is unchanged by the last step *)
+Lemma exit_fixpoint : forall dfs nbs chl chr it t,
+  NoDup (map rr_node t) ->
+  count_needs_updating (oto_step dfs nbs chl chr it t) = O ->
+  (forall r, In r t -> minl (vals dfs nbs chl chr it t (rr_node r)) = rr_rep r) /\
+  (forall v c s, In (v, c, s) (strip (oto_step dfs nbs chl chr it t)) <-> In (v, c, s) t).
+Proof.
+  intros dfs nbs chl chr it t Hnd Hc.
+  assert (Hnc : forall r, In r t -> minl (vals dfs nbs chl chr it t (rr_node r)) = rr_rep r).
+  { intros r Hr. pose proof (count_zero_no_update _ Hc) as Hz.
+    assert (Hin : In (rr_node r, minl (vals dfs nbs chl chr it t (rr_node r)), rr_sds r,
+                      negb (minl (vals dfs nbs chl chr it t (rr_node r)) =? rr_rep r))
+                     (oto_step dfs nbs chl chr it t)).
+    { apply step_in; try assumption. exists r. auto. }
+    apply Hz in Hin. cbn [snd] in Hin. apply negb_false_iff in Hin. apply Z.eqb_eq. exact Hin. }
+  split; [exact Hnc|]. intros v c s. rewrite strip_step_in by assumption. split.
+  - intros [c0 [Hin ->]]. pose proof (Hnc (v, c0, s) Hin) as Hx. unfold rr_node, rr_rep in Hx. cbn [fst snd] in Hx.
+    rewrite Hx. exact Hin.
+  - intros Hin. exists c. split; [assumption|]. pose proof (Hnc (v, c, s) Hin) as Hx.
+    unfold rr_node, rr_rep in Hx. cbn [fst snd] in Hx. symmetry. exact Hx.
+Qed.
+
+Lemma maximal_tiefree : forall dfs thr (chl chr : chooser) fuel nodes E out,
+  NoDup (map n_id nodes) -> tie_free E -> rank1_ok chl -> rank1_ok chr ->
+  oto_loop dfs (df_neighbours thr E) chl chr fuel 1 (df_representatives nodes) = Some out ->
+  forall v w, ~ admissible_cross dfs thr E out v w.
+Proof.
+  intros dfs thr chl chr fuel nodes E out Hnd Htf Hl Hr Hloop v w Hadm.
+  destruct (loop_exit _ _ _ _ _ _ _ _ Hloop) as (it' & t' & Hout & Hc & k & Ht' & _).
+  assert (Hinv : inv dfs (df_representatives nodes) t').
+  { rewrite Ht'. apply inv_iter. apply inv_init. assumption. }
+  destruct Hinv as (Hnd' & _ & _).
+  destruct (exit_fixpoint _ _ _ _ _ _ Hnd' Hc) as [Hnc Hsame]. rewrite <- Hout in Hsame.
+  pose proof (no_change_no_candidates dfs thr E chl chr it' t' Hnd' Htf Hl Hr Hnc) as Hrows.
+  destruct Hadm as [(e & He & Hab & Hends) (cv & cw & sv & sw & Hv & Hw & Hne & Hns)].
+  apply Hsame in Hv, Hw.
+  destruct (in_indexed E 0 e He) as [i Hi].
+  assert (Hns' : no_shared dfs t' cv cw).
+  { intros d Hd [H1 H2]. apply (Hns d Hd). split; apply contains_flag_true.
+    - apply contains_flag_true in H1. destruct H1 as [[[x c] s] [Hx Hcs]]. exists (x, c, s). split; [apply Hsame; assumption|assumption].
+    - apply contains_flag_true in H2. destruct H2 as [[[x c] s] [Hx Hcs]]. exists (x, c, s). split; [apply Hsame; assumption|assumption]. }
+  assert (Hcand : exists a, In a (candidates dfs (df_neighbours thr E) t')).
+  { destruct Hends as [[H1 H2]|[H1 H2]].
+    - eexists. apply candidates_in. exists (fwd i e), (v, cv, sv), (w, cw, sw).
+      split; [apply nbs_in; exists i, e; auto|]. repeat (split; [first [assumption|reflexivity]|]). reflexivity.
+    - eexists. apply candidates_in. exists (bwd i e), (v, cv, sv), (w, cw, sw).
+      split; [apply nbs_in; exists i, e; auto|]. repeat (split; [first [assumption|reflexivity]|]). reflexivity. }
+  destruct Hcand as [a Ha]. rewrite Hrows in Ha. exact Ha.
+Qed.
+
+(* ------------------------------------------------------------------ weak connectivity (all choosers) *)
+Lemma cand_tedge : forall dfs thr E prev a,
+  In a (candidates dfs (df_neighbours thr E) prev) -> tedge thr E (c_node a) (c_nb a).
+Proof.
+  intros dfs thr E prev a Ha. apply candidates_in in Ha.
+  destruct Ha as (nb & rl & rr & Hnb & _ & _ & _ & _ & _ & _ & ->). cbn [c_node c_nb].
+  apply nbs_in in Hnb. destruct Hnb as (i & e & Hie & Hab & Hd).
+  apply indexed_bounds in Hie. destruct Hie as [_ He]. exists e. split; [assumption|]. split; [assumption|].
+  destruct Hd as [-> | ->]; cbn [fwd bwd nb_node nb_nb]; [left|right]; auto.
+Qed.
+
+Definition wconn (thr : option Q) (E : list edge) (t : list reprow) : Prop :=
+  forall v c s, In (v, c, s) t -> conn_in thr E (fun _ => True) v c.
+
+Lemma wconn_step : forall dfs thr E chl chr it t,
+  NoDup (map rr_node t) -> wconn thr E t ->
+  wconn thr E (strip (oto_step dfs (df_neighbours thr E) chl chr it t)).
+Proof.
+  intros dfs thr E chl chr it t Hnd Hw v c s Hin. apply strip_step_in in Hin.
+  destruct Hin as [c0 [Hp ->]].
+  destruct (new_rep_cases dfs (df_neighbours thr E) chl chr it t Hnd v c0 s Hp) as [->|(a & r & Ha & Hr & Hn & Hb & Hrep)].
+  - apply (Hw v c0 s Hp).
+  - destruct (acc_in _ _ _ _ _ _ _ Ha) as (Hc & _ & _). apply cand_tedge in Hc. rewrite Hn, Hb in Hc.
+    rewrite <- Hrep. destruct r as [[w cw] sw]. apply conn_step with w; [exact I|exact Hc|].
+    apply (Hw w cw sw Hr).
+Qed.
+
+Lemma wconn_loop : forall dfs thr E chl chr fuel it t0 t out,
+  inv dfs t0 t -> wconn thr E t ->
+  oto_loop dfs (df_neighbours thr E) chl chr fuel it t = Some out -> wconn thr E out.
+Proof.
+  induction fuel; intros it t0 t out Hinv Hw H; cbn [oto_loop] in H; [discriminate|].
+  destruct (Nat.eqb _ 0).
+  - inversion H; subst. apply wconn_step; [apply Hinv|assumption].
+  - eapply IHfuel; [| |exact H].
+    + apply inv_step. exact Hinv.
+    + apply wconn_step; [apply Hinv|assumption].
+Qed.
+
+Lemma connected_weak : forall dfs thr (chl chr : chooser) fuel nodes E out,
+  NoDup (map n_id nodes) ->
+  oto_loop dfs (df_neighbours thr E) chl chr fuel 1 (df_representatives nodes) = Some out ->
+  forall v c s, In (v, c, s) out -> conn_in thr E (fun _ => True) v c.
+Proof.
+  intros dfs thr chl chr fuel nodes E out Hnd H.
+  apply (wconn_loop dfs thr E chl chr fuel 1 _ _ out (inv_init dfs nodes Hnd)); [|exact H].
+  intros v c s Hin. unfold df_representatives in Hin. apply in_map_iff in Hin.
+  destruct Hin as [n [Heq _]]. inversion Heq; subst. apply conn_refl. exact I.
+Qed.
